@@ -33,6 +33,37 @@ func main() {
 }
 
 func setup(repo string) {
+	selectThroughHavoc = func(h, addr *Term) bool {
+		id := h.Name
+		if j := strings.Index(id[6:], "$"); j >= 0 {
+			id = id[:6+j]
+		}
+		reach := havocReach[id]
+		if reach == nil {
+			return false
+		}
+		if j := strings.Index(h.Name, "$M$"); j >= 0 && reach["*"+h.Name[j+3:]] {
+			return false
+		}
+		if reach["*"] {
+			return false
+		}
+		ks := pathStructKeys(addr)
+		if len(ks) == 0 {
+			return false
+		}
+		for _, k := range ks {
+			if reach[k] {
+				return false
+			}
+		}
+		for _, da := range havocArgs[id] {
+			if !cellOutsideArg(addr, ks, da) {
+				return false
+			}
+		}
+		return true
+	}
 	if repo != "" {
 		repoDir = repo
 	}
